@@ -254,3 +254,111 @@ def check_C06(tier):
     engine_run(c, "noise-join", "JoinMenu", lines="LinesNoise", maxlines=2, maxfiles=1, tdefs=("plain", "knn"))
     c.rule, c.assumptions, c.exhaustive = ENGINE_RULE, ENGINE_ASSUME, True
     return c.finish()
+
+
+# =====================================================================================  C12
+READER_DEVS = ["InvalidUtf8EndsFile"]
+
+
+def check_C12(tier):
+    c = Check("C12", tier, "model_checking")
+    t = tier == "thorough"
+    dev = vlib.open_devs(READER_DEVS)
+    invs = ["ExactlyOnceInOrder", "PrefixAlways", "ConcatLaw", "NothingLostSilently"]
+    consts = lambda d: {"MaxLen": 6 if t else 5, "MaxFiles": 3 if t else 2, "Dev": {q(x) for x in d}}
+    if dev:
+        r0 = tlc("MC_Reader", cfg_text(constants=consts([]), invariants=invs), "reader-ideal", workers=W)
+        expect_holds(r0, "Reader (Ideal)"); c.add_tlc(r0)
+        for d in dev:
+            rw = tlc("MC_Reader", cfg_text(constants={"MaxLen": 3, "MaxFiles": 1, "Dev": {q(d)}}, invariants=invs), "reader-dev-" + d, workers=W)
+            if not expect_witness(rw, d):
+                raise ToolError("deviation %s does not break C12 in the model" % d)
+    r = tlc("MC_Reader", cfg_text(constants=consts(dev), invariants=(invs if not dev else []) + ["Emit"]), "reader", workers=W, timeout=1500)
+    expect_holds(r, "Reader"); c.add_tlc(r)
+    rep = vh_replay("reader", r.replay_path, "reader")
+    c.add_report(rep, reg("FileExecutor / join loader line reading vs Reader.tla (replay)", "reader"))
+    # the same files through the whole engine: statements over inputs split into files (Engine.tla)
+    engine_run(c, "files", "CoreLimitMenu", lines="Lines3", maxlines=4 if t else 3, maxfiles=3, tdefs=("plain",))
+    c.rule = ("TLC enumerates every byte content up to MaxLen over {x, LF, CR, a byte that is not UTF-8, U+00E9} and every cut into 1..MaxFiles files; each case is written to real files "
+              "(x also expanded to runs of 8191/8192/8193 bytes around the BufReader capacity for every 50th case) and read by FileExecutor (SELECT x, COUNT(*), total_lines) and by the join loader. "
+              "Non-trivial = at least one line; distinct by (files, run length).")
+    c.assumptions = ["the regex (.*) admits every line", "invalid UTF-8 is modelled by the single byte 0xFF"]
+    c.exhaustive = True
+    return c.finish()
+
+
+# =====================================================================================  C17
+def check_C17(tier):
+    c = Check("C17", tier, "model_checking")
+    t = tier == "thorough"
+    invs = ["EveryRowOnceInOrder", "HeaderOnce", "FieldsPerRecord", "Emit"]
+    fm = {q("text"), q("json"), q("csv")}
+    # every value of the boundary universe in every format, single results
+    r = tlc("MC_Printer", cfg_text(constants={"Dev": set(), "Formats": fm, "ResultMenu": "<-MenuAll", "MaxCalls": 1}, invariants=invs), "printer-values", workers=W)
+    expect_holds(r, "Printer (values)"); c.add_tlc(r)
+    rep = vh_replay("printer", r.replay_path, "printer-values", env_extra={"TZ": "UTC"})
+    c.add_report(rep, reg("OutputPrinter vs Printer.tla (replay)", "printer"))
+    # sequences of results: header once, separators, first_line carried across calls
+    r = tlc("MC_Printer", cfg_text(constants={"Dev": set(), "Formats": fm, "ResultMenu": "<-MenuSeq", "MaxCalls": 5 if t else 4}, invariants=invs), "printer-seq", workers=W)
+    expect_holds(r, "Printer (sequences)"); c.add_tlc(r)
+    rep = vh_replay("printer", r.replay_path, "printer-seq", env_extra={"TZ": "UTC"})
+    c.add_report(rep, "OutputPrinter vs Printer.tla (replay)")
+    if t:
+        r = tlc("MC_Printer", cfg_text(constants={"Dev": set(), "Formats": fm, "ResultMenu": "<-TwoCol", "MaxCalls": 2}, invariants=invs), "printer-two", workers=W)
+        expect_holds(r, "Printer (two columns)"); c.add_tlc(r)
+        rep = vh_replay("printer", r.replay_path, "printer-two", env_extra={"TZ": "UTC"})
+        c.add_report(rep, "OutputPrinter vs Printer.tla (replay)")
+    # end to end: rows produced by the engine and printed by FileExecutor as JSON (Engine.tla replays decode every record)
+    engine_run(c, "print-e2e", "SelectMenu", lines="Lines3", maxlines=2, maxfiles=1, tdefs=("plain",))
+    c.rule = ("TLC enumerates sequences of print() calls (0-3 rows x 1-2 columns, single / multi) x the three formats over a boundary value universe "
+              "(NULL, 64-bit extremes, reals incl. NaN/inf/-0.0, texts with quotes, delimiter, line break, control, non-ASCII and astral characters, arrays); the real OutputPrinter prints them into a capturing Printer. "
+              "JSON records are decoded with serde_json and compared key by key and value by value; text / CSV records are compared as exact lines for delimiter-free values. Non-trivial = at least one record.")
+    c.assumptions = ["serde_json's parser is trusted to decode the printed JSON", "text / CSV line content is only specified for values free of delimiter, quote and line-break characters (as the property says)"]
+    c.exhaustive = True
+    return c.finish()
+
+
+# =====================================================================================  C16
+VALUE_DEVS = ["NumVariantOrder", "FloatNanOrd", "FloatHashBits"]
+IDEAL_LAWS = ["Trichotomy", "Transitivity", "EqConsistent", "EqualHashEqual", "NumbersByValue"]
+ASBUILT_LAWS = ["TrichotomyB", "TransitivityB", "EqConsistentB", "EqualHashEqualB", "NumbersByValueB"]
+
+
+def check_C16(tier):
+    c = Check("C16", tier, "model_checking")
+    t = tier == "thorough"
+    dev = vlib.open_devs(VALUE_DEVS)
+    # 1. the Ideal order satisfies every law on all triples of the boundary universe; with no open finding the as-built order too
+    r = tlc("MC_Values", cfg_text(constants={"Dev": set()}, invariants=IDEAL_LAWS + ASBUILT_LAWS), "values-laws", workers=W)
+    expect_holds(r, "Values laws (Ideal)"); c.add_tlc(r)
+    # 2. each open deviation breaks a law in the model
+    for d in dev:
+        rw = tlc("MC_Values", cfg_text(constants={"Dev": {q(d)}}, invariants=ASBUILT_LAWS), "values-dev-" + d, workers=W)
+        if not expect_witness(rw, d):
+            raise ToolError("deviation %s breaks no law of C16 in the model: stale finding?" % d)
+        c.notes.append("TLC witness for %s: %s" % (d, rw.violated))
+    # 3. spec -> impl: ==, cmp, partial_cmp, <, >, hash on every ordered pair
+    r = tlc("MC_Values", cfg_text(constants={"Dev": {q(d) for d in dev}}, invariants=["Emit"]), "values-pairs", workers=W)
+    expect_holds(r, "Values pairs"); c.add_tlc(r)
+    rep = vh_replay("values", r.replay_path, "values", env_extra={"TZ": "UTC"})
+    c.add_report(rep, reg("Value ==/cmp/hash vs Values.tla (replay)", "values"))
+    # 4. every consumer named in the property, on every same-kind pair: WHERE, DISTINCT, GROUP BY (grouping + order), MIN/MAX, array_unique
+    engine_run(c, "pairs", "PairMenu", lines="LinesPair", maxlines=2, maxfiles=1, modes=("incr",), tdefs=("plain",),
+               invs=["TypeOK", "IncrRefinesSem", "IncrSelectRefinesSem"], props=())
+    # 5. impl -> spec: random values
+    for i in range(3 if t else 1):
+        tp = vh_trace("values", 6000 if t else 2500, "values%d" % i, seed_=vlib.seed() * 100 + i, env_extra={"TZ": "UTC"})
+        ok, tr = validate_trace("Trace_Values", tp, "trace-values%d" % i, constants={"Dev": {q(d) for d in dev}},
+                                invariants=["TraceUnfinished"], post="TraceRejectedAt", extra={"constraint": "TrackProgress"})
+        c.add_tlc(tr)
+        if ok:
+            n = sum(1 for _ in open(tp)); c.traces += n; c.evaluations += n; c.extra["random_pairs_validated"] = c.extra.get("random_pairs_validated", 0) + n
+        else:
+            keep = os.path.join(vlib.REPLAYS, "C16-trace-%d-%d.ndjson" % (vlib.seed(), i)); os.makedirs(vlib.REPLAYS, exist_ok=True); os.replace(tp, keep)
+            c.violation("random value comparisons rejected by Trace_Values.tla", {"trace": keep, "tlc": tr.log[max(0, tr.log.find("TRACE-REJECTED") - 5):][:900]})
+    c.rule = ("TLC checks trichotomy, transitivity, equality = order, equal => same hash and numbers-by-value on all 74 088 triples of a 42-value boundary universe; "
+              "every ordered pair is executed on the real Value (==, cmp, partial_cmp, <, >, Hash with two hashers) and through WHERE / DISTINCT / GROUP BY / MIN / MAX / array_unique; "
+              "random wider pairs are validated as a trace. Non-trivial = both values non-NULL; distinct by the pair.")
+    c.assumptions = ["semantic comparison under TZ=UTC", "hash inequality is never required, only equal => equal hash"]
+    c.exhaustive = True
+    return c.finish()
